@@ -279,11 +279,12 @@ def gen_module(rng: random.Random, process_dependent: bool = False, special: boo
     if force == "overused" or (force is None and rng.random() < (0.5 if special else 0.12)):
         # several different constants, each used equally often and often enough to be abstracted:
         # which one gets which generated name must not depend on set / address order
-        n_consts = rng.randint(2, 3)
+        n_consts = rng.choice([2, 2, 3, 3, 6, 7])  # many constants: each application may only do part of the work
         uses = rng.choice([5, 5, 6])
         consts = rng.sample([
             '"some/path/to/a/thing/number-one"', '"another-fairly-long-constant-value"', "(1, 2, 3, 4, 5, 6, 7, 8, 9, 10)",
             '"yet another constant, with spaces"', "[10, 20, 30, 40, 50, 60, 70, 80]", '"https://example.invalid/some/long/url"',
+            '"the quick brown fox jumps over it"', "(100, 200, 300, 400, 500, 600, 700)", '"SELECT name FROM table WHERE id = 1"',
         ], n_consts)
         lines = []
         order = [c for c in consts for _ in range(uses)]
